@@ -224,6 +224,29 @@ def run(ctx):
     else:
         fwd = enum_table(prog, ab, "equipment::Slot")
         back, default, _t = string_table(fb)
+        if fwd is not None and back is not None and not back:
+            # no string literal is matched in the function itself: the lookup may be a search over a constant table
+            # through the forward function - compose it for every abbreviation and for an unknown one
+            comp_ = Composer(prog)
+            discr2slot = {d_: n_ for n_, d_ in slots}
+
+            def lookup_s(sv):
+                try:
+                    v_ = comp_.call("equipment::get_slot_from_abbreviation", (("ks", sv),), {})
+                except Undecided:
+                    return "undecided"
+                if isinstance(v_, tuple) and v_ and v_[0] == "Some" and isinstance(v_[1], tuple) and v_[1][0] == "enum":
+                    nm_ = discr2slot.get(v_[1][1])
+                    return ("agg", "adt", "std::option::Option::Some", (("agg", "adt", "equipment::Slot::" + str(nm_), (), None),), None)
+                if v_ == ("None",):
+                    return ("agg", "adt", "std::option::Option::None", (), None)
+                return "undecided"
+
+            abbrs = [leaf_str(v) for v in fwd.values() if leaf_str(v)]
+            back = {sv: lookup_s(sv) for sv in abbrs}
+            default = lookup_s("\x00<no such abbreviation>\x00")
+            if "undecided" in list(back.values()) + [default]:
+                back = None
         if fwd is None or back is None:
             ctx.fail_closed("SLOT", "slot abbreviation functions are not table functions")
         else:
@@ -257,14 +280,18 @@ def run(ctx):
         ctx.floor("CHARCAT", f"{fn} rows", len(vals), 5)
 
     # ---- EQUIP template vs deconstructor
-    eq_t = [t for t in fmt.templates_of(ctx.wire, "equipment::build_equipment_path")]
+    from ..strx import StrX as _StrX, show as _sshow
+    from ..prov import derive as _dv, index_of as _ixof
+
+    eb_ = prog.body("equipment::build_equipment_path")
     db = prog.body("equipment::deconstruct_equipment_path")
-    if len(eq_t) != 1 or not db:
-        ctx.fail_closed("EQUIP", "build_equipment_path template / deconstruct_equipment_path not found")
+    epcs = _StrX(eb_).returned() if eb_ else None
+    if not eb_ or not db or epcs is None or any(p_[0] == "opaque" for p_ in epcs):
+        ctx.fail_closed("EQUIP", f"build_equipment_path string / deconstruct_equipment_path not found ({_sshow(epcs) if epcs else None})")
     else:
-        t = eq_t[0]
+        eix = _ixof(eb_)
         # file-name part: pieces after the last '/'
-        pieces = t.pieces
+        pieces = epcs
         last = max(i for i, p in enumerate(pieces) if p[0] == "lit" and "/" in p[1])
         name_pieces = [("lit", pieces[last][1].rsplit("/", 1)[1])] + pieces[last + 1 :]
         pos = 0
@@ -274,12 +301,14 @@ def run(ctx):
             if p[0] == "lit":
                 pos += len(p[1])
             else:
-                w = fmt.spec_width(p[2])
-                width = w[0] if w and w[0] else (3 if "slot" in (p[3] or "") else None)
+                d_ = _dv(eix, p[3]) if p[0] == "arg" and p[3] is not None else None
+                calls_ = {c_.split("::")[-1] for c_ in d_.calls} if d_ else set()
+                role = "race" if "get_race_id" in calls_ else "slot" if "get_slot_abbreviation" in calls_ else "model_id" if d_ and d_.params == {1} else "?"
+                width = p[2][0] if p[0] == "arg" and p[2][0] else (3 if role == "slot" else None)
                 if width is None:
                     ok_shape = False
                     break
-                spans.append((pos, pos + width, p[3], p[2]))
+                spans.append((pos, pos + width, role, p[2] if p[0] == "arg" else None))
                 pos += width
         ranges = []
         for p in Explorer(db).explore():
@@ -288,14 +317,14 @@ def run(ctx):
                     lo, hi = args[1][3]
                     if is_const(lo) and is_const(hi) and (lo[1], hi[1]) not in ranges:
                         ranges.append((lo[1], hi[1]))
-        id_span = [s for s in spans if (s[2] or "").strip() == "model_id"]
-        slot_span = [s for s in spans if "get_slot_abbreviation" in (s[2] or "")]
-        race_span = [s for s in spans if "get_race_id" in (s[2] or "")]
-        ctx.ob("EQUIP", "template-roles", ok_shape and len(id_span) == 1 and len(slot_span) == 1 and len(race_span) == 1 and spans.index(race_span[0]) < spans.index(id_span[0]) < spans.index(slot_span[0]), f"file-name fields {[(a, b, x) for a, b, x, _ in spans]}: must be race code, model id, slot abbreviation in that order", "src/equipment.rs", t.line)
+        id_span = [s for s in spans if s[2] == "model_id"]
+        slot_span = [s for s in spans if s[2] == "slot"]
+        race_span = [s for s in spans if s[2] == "race"]
+        ctx.ob("EQUIP", "template-roles", ok_shape and len(id_span) == 1 and len(slot_span) == 1 and len(race_span) == 1 and spans.index(race_span[0]) < spans.index(id_span[0]) < spans.index(slot_span[0]), f"file name {_sshow(name_pieces)!r} fields {[(a, b, x) for a, b, x, _ in spans]}: must be race code, model id, slot abbreviation in that order", eb_.file, eb_.line)
         if id_span and slot_span:
             ctx.ob("EQUIP", "id-slice", (id_span[0][0], id_span[0][1]) in ranges, f"template puts the model id at bytes {id_span[0][:2]}; deconstructor slices {ranges}", db.file, db.line, sample=True)
             ctx.ob("EQUIP", "slot-slice", (slot_span[0][0], slot_span[0][1]) in ranges, f"template puts the slot at bytes {slot_span[0][:2]}; deconstructor slices {ranges}", db.file, db.line)
-            ctx.ob("EQUIP", "id-decimal", fmt.spec_width(id_span[0][3]) == (4, 10, True), f"model id is formatted as {id_span[0][3]!r}; the deconstructor parses 4 decimal digits", "src/equipment.rs", t.line)
+            ctx.ob("EQUIP", "id-decimal", id_span[0][3] == (4, 10, True), f"model id is formatted with (width, radix, zero-pad) = {id_span[0][3]!r}; the deconstructor parses 4 decimal digits", eb_.file, eb_.line)
         # the deconstructor's results feed parse (id) and get_slot_from_abbreviation (slot) from the right slices
         roles = {}
         for p in Explorer(db).explore():
